@@ -168,6 +168,10 @@ def project_state(state, cfg, cutoff=None):
     k = khbar()
     n = state.num_modes
     out = {"n": n}
+    if n == 0:
+        out.update(mu=np.zeros(0), V=np.zeros((0, 0)), trace=1.0, herm_defect=0.0, pure=True, D=cutoff or 0,
+                   wsum=1.0, imag_defect=0.0, sym_defect=0.0, nweights=1)
+        return out
     if cfg == "gaussian":
         out["mu"] = np.real(state.means()) / k
         out["V"] = np.real(state.cov()) / k ** 2
